@@ -13,14 +13,17 @@ COQ_IMPORTS = 'From Bac Require Import Base Prio.'
 RULE = ('cases: a history = constructor arguments + a list of ops (write v / relinquish at priority p or without priority, '
         'p also from {0,-1,17,255,300}; clock advance dt) run on a fresh object of one of the 20 ...CmdObject classes, '
         'through direct WriteProperty or through WritePropertyRequest/ReadPropertyRequest over a vlan; after every op the '
-        'result code, presentValue, the pending MinOnOffTask deadline and all 16 slots (packed base 8 into one number) are compared with the model. '
+        'result code, presentValue, the pending MinOnOffTask deadline and all 16 slots (packed base 64 into one number) are compared with the model. '
         'Exhaustive: every sequence of length <= 2 over priorities {1,8,16,none} x 3 values x {write,relinquish} per class; '
-        'random length-100 sequences over all 16 priorities per class and path; binary classes with minimum on/off times '
+        'random length-100 sequences over all 16 priorities per class and path; full-range histories (every value of a per-datatype '
+        'table spanning its range - doubles that are not binary32-exact, extreme/negative integers, 2^32-1, non-ASCII and long strings, '
+        'every enumeration value, wildcard dates/times - commanded on each class, both paths; over the wire the decoded slot must be '
+        'bit-exactly the commanded value in the PriorityValue alternative of the class datatype); binary classes with minimum on/off times '
         '0..10 s and clock advances 0..12 s.  non-trivial = at least one accepted command; distinct by (class, path, '
         'constructor arguments, ops).  direct: the same domains, exhaustive up to length 3 (quick; 4 for BinaryValue) / 4 (thorough; 5 for AnalogValue, BinaryValue) per class.')
 TRUSTED = ['model coq/theories/Prio.v written by hand after local/object.py:_Commando.__init__/_highest_priority_value/'
            'WriteProperty, MinOnOffTask, and the store-then-monitors tail of object.py:Property.WriteProperty; tie = correspondence',
-           'values are compared through a per-class table of 3-4 distinct sample values (codes); the code only uses == on them',
+           'values are compared through a per-datatype table of 4-15 sample values spanning the range of the datatype (codes; floats keyed by float.hex, no NaN / -0.0); the expected PriorityValue alternative per datatype is a table of the harness, not read from the implementation',
            'virtual clock: bacpypes.task._time replaced by the harness; tasks run by the harness loop (get_next_task/process_task)']
 ASSUMPTIONS = ['values written are valid for the datatype and given in the form the API documents (enumerations by name)',
                'the ...CmdObject classes are registered with register_object_type(cls, vendor_id=999) as the samples do',
@@ -66,26 +69,47 @@ def env():
     assert found == sorted(CLASS_NAMES), ('commandable classes changed', found)
 
     DT = bt.DateTime
+    import struct
+
+    def f32(x):
+        return struct.unpack('>f', struct.pack('>f', x))[0]
+    # Per datatype: code 0 = the datatype's default; codes 1..3 (used by the exhaustive sweeps) are the awkward ones;
+    # the rest spans the range of the datatype.  Real values are binary32-exact (what the datatype can hold), Double
+    # values deliberately are not; no NaN and no -0.0 (Python's == is not bit equality there).
+    reals = [0.0, f32(0.1), f32(-1.0 / 3), 3.4028234663852886e38, 1.5, 2.5, -3.25, 1.401298464324817e-45, f32(12345678.9),
+             -3.4028234663852886e38, float('inf'), 1.0]
+    doubles = [0.0, 0.1, 1e-50, 12345678.9, 1.5, -1.0 / 3, 1.7976931348623157e308, 5e-324, 3.5e38, -2.5e-10, float('-inf'),
+               -20.25, 0.10000000149011612]
+    dates = [(255, 255, 255, 255), (120, 1, 1, 3), (255, 12, 31, 255), (99, 255, 15, 255), (121, 12, 31, 5), (0, 1, 1, 1),
+             (254, 13, 32, 7), (124, 14, 33, 255), (124, 2, 34, 255), (255, 255, 255, 1)]
+    times = [(255, 255, 255, 255), (1, 2, 3, 4), (255, 0, 0, 0), (12, 255, 255, 255), (12, 0, 0, 0), (23, 59, 59, 99),
+             (0, 0, 0, 0), (255, 255, 255, 0)]
     pools = {
-        'Real': [0.0, 1.5, 2.5, -3.25], 'Double': [0.0, 1.5, 2.5, -3.25],
+        'Real': reals, 'Double': doubles,
         'DoorValue': ['lock', 'unlock', 'pulseUnlock', 'extendedPulseUnlock'],
         'BinaryPV': ['inactive', 'active'],
-        'BitString': [[], [1], [0, 1], [1, 1, 0]],
-        'CharacterString': ['', 'a', 'b', 'hello'],
-        'Date': [(255, 255, 255, 255), (120, 1, 1, 3), (121, 12, 31, 5), (99, 6, 15, 255)],
-        'Time': [(255, 255, 255, 255), (1, 2, 3, 4), (12, 0, 0, 0), (23, 59, 59, 99)],
-        'DateTime': [DT(), DT(date=(120, 1, 1, 3), time=(1, 2, 3, 4)), DT(date=(121, 12, 31, 5), time=(12, 0, 0, 0)),
-                     DT(date=(99, 6, 15, 255), time=(23, 59, 59, 99))],
-        'Integer': [0, 1, -5, 70000], 'Unsigned': [0, 1, 2, 70000],
-        'OctetString': [b'', b'\x01', b'ab', b'\x00\xff'],
+        'BitString': [[], [1], [0, 1], [1, 1, 0], [0] * 8, [1] * 9, [1, 0] * 20, [0] * 7 + [1]],
+        'CharacterString': ['', 'a', 'b', 'h\u00e9llo \u20ac', 'hello', 'x' * 40, ' ', 'A' * 5],
+        'Date': dates, 'Time': times,
+        'DateTime': [DT()] + [DT(date=d, time=t) for d, t in
+                              [(dates[1], times[1]), (dates[2], times[2]), (dates[3], times[3]), (dates[0], times[0]),
+                               (dates[4], times[5]), (dates[6], times[6]), (dates[9], times[7])]],
+        'Integer': [0, -1, 2 ** 31 - 1, -2 ** 31, 1, -5, 70000, 127, -128, 128, 32767, -32768, -32769, 8388607, -8388609],
+        'Unsigned': [0, 1, 2 ** 32 - 1, 256, 2, 255, 65535, 65536, 70000, 16777215, 16777216, 2 ** 31],
+        'OctetString': [b'', b'\x01', b'ab', b'\x00\xff', bytes(range(40)), b'\x00', b'\xff' * 5],
     }
+    # which alternative of PriorityValue a slot of this datatype must use (clause 21, BACnetPriorityValue) - not read
+    # from the implementation
+    choice_of = {'Real': 'real', 'Double': 'double', 'DoorValue': 'enumerated', 'BinaryPV': 'enumerated',
+                 'BitString': 'bitString', 'CharacterString': 'characterString', 'Date': 'date', 'Time': 'time',
+                 'DateTime': 'datetime', 'Integer': 'integer', 'Unsigned': 'unsigned', 'OctetString': 'octetString'}
     infos = {}
     for n in CLASS_NAMES:
         cls = getattr(lo, n)
         register_object_type(cls, vendor_id=999)
         dt = cls._properties['presentValue'].datatype
         infos[n] = {'name': n, 'cls': cls, 'otype': cls.objectType, 'datatype': dt, 'dtname': dt.__name__,
-                    'pool': pools[dt.__name__], 'choice': cls._pv_choice, 'mon': n in BINARY,
+                    'pool': pools[dt.__name__], 'choice': choice_of[dt.__name__], 'mon': n in BINARY,
                     'enum': issubclass(dt, pd.Enumerated), 'atomic': issubclass(dt, pd.Atomic)}
 
     class NSE(NetworkServiceElement):
@@ -268,13 +292,19 @@ class Driver:
 
     # -- observations
     def timer(self):
+        """deadline of the scheduled MinOnOffTask, -1 when none; -2/-3: the task manager's heap is inconsistent with the
+        task (no entry / a stale second entry or an entry under another time)"""
         t = getattr(self.obj, '_min_on_off_task', None)
-        if t is None or not t.isScheduled:
+        if t is None:
             return -1
-        for when, _n, task in self.e['tm'].tasks:
-            if task is t:
-                return when
-        return -2
+        whens = [when for when, _n, task in self.e['tm'].tasks if task is t]
+        if not t.isScheduled:
+            return -1 if not whens else -3
+        if not whens:
+            return -2
+        if len(whens) != 1 or whens[0] != t.taskTime:
+            return -3
+        return whens[0]
 
     def _slot_code(self, pvobj):
         info = self.info
@@ -314,10 +344,10 @@ class Driver:
 # a history: dict(cls, path, pv, dflt, on, off, ops) with ops = [('c', prio|None, code|None) | ('t', dt)]
 
 def pack(obs):
-    """[presentValue, timer, the 16 slot codes as base-8 digits of one number] (Prio.observe_packed)"""
+    """[presentValue, timer, the 16 slot codes as base-64 digits of one number] (Prio.observe_packed)"""
     if len(obs) != 18:
         return list(obs[:2]) + [-1]
-    return [obs[0], obs[1], sum((0 if c == -1 else c + 1 if 0 <= c < 6 else 7) * 8 ** i for i, c in enumerate(obs[2:]))]
+    return [obs[0], obs[1], sum((0 if c == -1 else c + 1 if 0 <= c < 62 else 63) * 64 ** i for i, c in enumerate(obs[2:]))]
 
 
 def run_history(h, upto=None):
@@ -369,6 +399,27 @@ def mk_bundle(kind, hs):
                 nontrivial=n_ok >= 1, desc={'bundle': hs})
 
 
+def all_codes(clsname):
+    """every value code of the class's pool (the DateTime default cannot be encoded and is left out)"""
+    n = len(env()['infos'][clsname]['pool'])
+    return list(range(1 if 'DateTime' in clsname else 0, n))
+
+
+def fullrange_history(clsname, path, rng=None):
+    """every value of the pool commanded once, priorities rotating through 1..16 and 'none', then everything relinquished"""
+    h = base_history(clsname, path)
+    if clsname in BINARY:
+        h['pv'] = 0
+    prios = list(range(1, 17)) + [None]
+    if rng is not None:
+        rng.shuffle(prios)
+    codes = all_codes(clsname)
+    ops = [('c', prios[k % 17], c) for k, c in enumerate(codes + codes[::-1])]
+    ops += [('c', p, None) for p in prios]
+    h['ops'] = ops
+    return h
+
+
 def nvals(clsname):
     return 1 if clsname in BINARY else 3       # usable non-default value codes 1..n
 
@@ -387,7 +438,7 @@ BAD_PRIOS = [0, -1, 17, 255, 300, -16, 18]
 
 def random_ops(rng, clsname, n, badrate=0.08, ticks=False, maxdt=12, hot=None):
     ops = []
-    vals = list(range(1 if 'DateTime' in clsname else 0, nvals(clsname) + 1))
+    vals = all_codes(clsname)
     for _ in range(n):
         r = rng.random()
         if ticks and r < 0.35:
@@ -416,8 +467,8 @@ def base_history(clsname, path, rng=None):
     if info['dtname'] == 'DateTime':
         h['pv'] = h['dflt'] = 1
     elif rng is not None and clsname not in BINARY and rng.random() < 0.5:
-        h['dflt'] = rng.randrange(0, 4)
-        h['pv'] = h['dflt'] if rng.random() < 0.8 else rng.randrange(0, 4)
+        h['dflt'] = rng.randrange(0, len(info['pool']))
+        h['pv'] = h['dflt'] if rng.random() < 0.8 else rng.randrange(0, len(info['pool']))
     return h
 
 
@@ -459,6 +510,12 @@ def cases(rng, tier):
                 h = base_history(cn, path, rng)
                 h['ops'] = [o for o in random_ops(rng, cn, 100 if path == 'direct' else 40) if path == 'direct' or wire_ok(o)]
                 out.append(mk_case('rand100-' + path, h))
+    # (b2) the whole range of each datatype, every class, both paths (the wire path decodes presentValue and
+    # priorityArray from ReadProperty answers: value bit-exact, PriorityValue alternative = the class's datatype)
+    for cn in CLASS_NAMES:
+        for path in ('direct', 'wire'):
+            for rep in range(3 if big else 1):
+                out.append(mk_case('fullrange-' + path, fullrange_history(cn, path, rng if rep else None)))
     # (c) binary classes with minimum on/off times and a moving clock
     for cn in BINARY:
         for on, off in itertools.product([0, 3, 7], repeat=2):
@@ -665,6 +722,16 @@ def direct(rng, tier, focus=()):
                 h['ops'] = [('c', 8, 1), ('c', bp, 0 if cn in BINARY else 2), ('c', bp, None), ('c', 3, 1), ('c', bp, 1), ('c', 3, None)]
                 h['ops'] = [o for o in h['ops'] if path == 'direct' or wire_ok(o)]
                 go(h)
+    # the whole range of each datatype; Null without priority relinquishes slot 16 (both paths, every class)
+    for cn in CLASS_NAMES:
+        for path in ('direct', 'wire'):
+            for rep in range(4 if big else 2):
+                go(fullrange_history(cn, path, rng if rep else None))
+            h = base_history(cn, path)
+            if cn in BINARY:
+                h['pv'] = 0
+            h['ops'] = [('c', None, 1), ('c', None, None), ('c', 16, 1), ('c', None, None), ('c', None, 1), ('c', 16, None)]
+            go(h)
     lap('refused')
     # random length 100 over all 16 priorities
     for cn in CLASS_NAMES:
@@ -674,7 +741,7 @@ def direct(rng, tier, focus=()):
                 if cn in BINARY:
                     h['pv'] = 0
                 if cn not in BINARY and env()['infos'][cn]['dtname'] != 'DateTime' and rng.random() < 0.5:
-                    h['pv'] = h['dflt'] = rng.randrange(0, 4)
+                    h['pv'] = h['dflt'] = rng.randrange(0, len(env()['infos'][cn]['pool']))
                 h['ops'] = [o for o in random_ops(rng, cn, 100) if path == 'direct' or wire_ok(o)]
                 go(h)
     lap('random')
@@ -694,6 +761,12 @@ def direct(rng, tier, focus=()):
                 for v in (0, 1):
                     h = {'cls': cn, 'path': 'direct', 'pv': 1 - v, 'dflt': 1 - v, 'on': on, 'off': off,
                          'ops': [('c', 8, v)] + [('t', 1)] * 12 + [('c', 8, None)] + [('t', 1)] * 12}
+                    go(h)
+                # a pending release re-installed for another time (state changes again before the deadline):
+                # exactly one release, at the new deadline
+                for v in (0, 1):
+                    h = {'cls': cn, 'path': 'direct', 'pv': 1 - v, 'dflt': 1 - v, 'on': on, 'off': off,
+                         'ops': [('c', 8, v), ('t', 1), ('c', 3, 1 - v)] + [('t', 1)] * 12 + [('c', 3, None)] + [('t', 1)] * 12}
                     go(h)
     lap('minonoff')
     samples.append({'direct': 'min on/off', 'grid': 'on,off in 0..10, both binary classes'})
